@@ -92,6 +92,8 @@ pub struct SeederCfg {
     pub initial_advert: Option<Vec<bool>>,
     /// re-send the Bitfield (what has been advertised so far) after this many served blocks
     pub rebitfield_at: Vec<u64>,
+    /// a re-sent Bitfield omits the piece requested last (and keeps serving it): a sloppy peer
+    pub rebitfield_drops: bool,
     /// Have messages at fixed times after connecting: (ms, piece)
     pub timed_haves: Vec<(u64, usize)>,
     /// keep the connection alive for ever: every so many ms repeat a Have for an advertised piece
@@ -119,6 +121,7 @@ impl SeederCfg {
             silent_after_blocks: None,
             initial_advert: None,
             rebitfield_at: vec![],
+            rebitfield_drops: false,
             timed_haves: vec![],
             chatter_ms: None,
         }
@@ -310,7 +313,9 @@ async fn seeder_task(cfg: SeederCfg, mut io: PeerIo) {
                     while let Some(at) = rebit.front() {
                         if *at > served { break; }
                         rebit.pop_front();
-                        if !io.send(&Msg::Bitfield(bitfield_bytes(&advertised))).await { return; }
+                        let mut bits = advertised.clone();
+                        if cfg.rebitfield_drops && (i as usize) < bits.len() { bits[i as usize] = false; }
+                        if !io.send(&Msg::Bitfield(bitfield_bytes(&bits))).await { return; }
                     }
                     while let Some((at, _)) = late.front() {
                         if *at > served { break; }
